@@ -350,6 +350,27 @@ void op_exec(const opdef_t* o, const env_t* env, uint64_t seed, int prefill, uns
     }
   }
   res->out_hash = h;
+  if (monitors & MON_RERUN) {
+    int pure = 1;
+    for (int i = 0; i < pl.nb; i++)
+      if (pl.b[i].role == R_INOUT || pl.b[i].role == R_INTMP) pure = 0;
+    if (pure) {
+      o->call(&pl, p, env);
+      uint64_t h2 = 0x1234;
+      for (int i = 0; i < pl.nb; i++) {
+        bufspec_t* b = &pl.b[i];
+        if (b->role != R_OUT) continue;
+        if (b->is_zvec)
+          for (uint64_t l = 0; l < b->size; l++) h2 = hash_bytes(zvec_limb(&z[i], l), b->n * 8, h2);
+        else
+          h2 = hash_bytes(p[i], b->bytes, h2);
+      }
+      if (h2 != h) {
+        res->rerun_differs = 1;
+        if (!res->msg[0]) snprintf(res->msg, sizeof res->msg, "a second call on the same buffers (outputs already holding the result, scratch as the first call left it) gave other output bits");
+      }
+    }
+  }
   for (int i = 0; i < pl.nb; i++) {
     bufspec_t* b = &pl.b[i];
     if ((monitors & MON_SNAPSHOT) && b->role == R_IN) {
